@@ -27,7 +27,7 @@ def firstBad : List (Unit → Verdict) → Verdict
     | v => v
 
 structure DocCase where
-  dom : Option Node
+  doc : Option Doc
   evs : List Ev
   res : Except Name Elem
 
@@ -38,7 +38,7 @@ structure HCase where
 def fuelMax : Nat := 100000
 
 def pDoc : P DocCase := fun ts => do
-  let (dom, ts) ← pOptNode fuelMax ts
+  let (dom, ts) ← pOptDoc fuelMax ts
   let (evs, ts) ← pEvents ts
   let (res, ts) ← pResult fuelMax ts
   pure (⟨dom, evs, res⟩, ts)
@@ -64,21 +64,21 @@ structure StepObs where
   implTree : Option Elem
 
 def runHistory (docs : List DocCase) : List StepObs :=
-  go docs none none true
+  go docs none none
 where
-  go : List DocCase → Option Elem → Option Elem → Bool → List StepObs
-    | [], _, _, _ => []
-    | d :: ds, mt, it, first =>
+  go : List DocCase → Option Elem → Option Elem → List StepObs
+    | [], _, _ => []
+    | d :: ds, mt, it =>
       let mres := match mt with
         | some t => extendStruct t d.evs
-        | none => if first then intoStruct d.evs else .error .noRoot
+        | none => intoStruct d.evs
       let mt' := match mres with | .ok t => some t | .error _ => mt
       let it' := match d.res with | .ok t => some t | .error _ => it
       -- the model continues from the implementation's tree, so that one divergence is reported once
       let mt'' := match d.res, mres with
         | .ok t, .ok _ => some t
         | _, _ => mt'
-      ⟨mres, d.res, mt', it'⟩ :: go ds mt'' it' false
+      ⟨mres, d.res, mt', it'⟩ :: go ds mt'' it'
 
 def sameKind (a : Except PErr Elem) (b : Except Name Elem) : Bool :=
   match a, b with
@@ -117,15 +117,17 @@ def renderCorr (tree : Option Elem) (rs : List (Options × Name)) : Verdict :=
 
 def finalImplTree (obs : List StepObs) : Option Elem := (obs.getLast?).bind (·.implTree)
 
+def DocCase.dom (d : DocCase) : Option Node := d.doc.map (·.root)
+
 def domsOf (docs : List DocCase) : Option (List Node) := docs.mapM (·.dom)
 
 /-- the recorded events are what `Node.events` says a reader reports for the generated document -/
 def domEventsOk (docs : List DocCase) : Verdict :=
   firstBad ((docs.zipIdx).map fun (d, i) => fun _ =>
-    match d.dom with
+    match d.doc with
     | none => .ok
     | some n =>
-      if normEvents (docEvents n) == normEvents d.evs then .ok
+      if normEvents n.events == normEvents d.evs then .ok
       else .corr s!"dom-events doc={i}")
 
 def sameRootName (doms : List Node) : Bool :=
